@@ -207,6 +207,16 @@ func checkC01(ctx *core.Ctx, ti int, t *rt.Table, router, entry string, req *rt.
 	}
 	tokens, clean := rt.Tokens(req.Path)
 	if len(out.Obs.Invokes) == 0 {
+		// no route function runs: then no route is "the selected route" for the filters around the error response either
+		for _, se := range out.Obs.Sels {
+			if se.RID != -1 || se.Path != "" {
+				ctx.Violation(ti, "c01:selected-without-invocation", fmt.Sprintf("%s filter saw selected route %d (%q) although no route function runs for this request (status %d)", se.Where, se.RID, se.Path, out.Status), doc("selected"))
+			}
+		}
+		if out.Panicked && strings.Contains(out.Panic, "nil") && strings.Contains(out.Panic, "pointer") && len(out.Obs.Sels) == 0 {
+			// the recording filter asks SelectedRoute() != nil before it touches the route: a non-nil answer it cannot use
+			ctx.Violation(ti, "c01:selected-without-invocation", fmt.Sprintf("a container filter that guards with SelectedRoute() != nil panicked on a request for which no route function runs: %s", out.Panic), doc("selected"))
+		}
 		if strings.HasPrefix(req.Class, "near") {
 			ctx.Sig(fmt.Sprintf("%s|%s|refused|%s|%d", router, entry, req.Class, out.Status))
 			ctx.Count("near_miss_refusals", 1)
@@ -363,6 +373,7 @@ func c02(ctx *core.Ctx) {
 		bo.Switched = ti%8 == 2 || ti%8 == 5
 		bo.Default = ti == 0
 		bo.Dynamic = ti%40 == 12 || ti%40 == 13
+		bo.SelFilters = ti%3 == 1 // application filters at all three levels that look at the selected route (guarded by != nil)
 		c, wss := rt.BuildWS(t, bo)
 		if bo.Dynamic {
 			// the route table was arrived at by RemoveRoute on registered WebServices: further representations of an
